@@ -213,6 +213,10 @@ def model(ctx):
     # ---- named selector: dictionary-style mutators and removals
     check("{a: x, b: y, c: z}['b'] = n", "__setitem__", True, ["b", new], lambda e: [e[0], new, e[2]], lambda e: {"a": e[0], "b": new, "c": e[2]})
     check("{a: x, b: y, c: z}['k'] = n", "__setitem__", True, ["k", new], lambda e: e + [new], lambda e: dict(ABC(e), k=new))
+    # an existing label re-pointed at an object that EQUALS the current one without being it (a fresh dataclass instance, a tuple):
+    # every store holds the new object afterwards (pop / remove prune the labels by identity with the list element)
+    TW = Obj("equal_twin_of_y", label="y", __eqclass__="value-of-y")
+    check("{a: x, b: y, c: z}['b'] = <equal to y, not identical>", "__setitem__", True, ["b", TW], lambda e: [e[0], TW, e[2]], lambda e: {"a": e[0], "b": TW, "c": e[2]})
     check("{a: x, b: y, c: z}.update({'b': n, 'k': m})", "update", True, [{"b": new, "k": new2}], lambda e: [e[0], new, e[2], new2],
           lambda e: {"a": e[0], "b": new, "c": e[2], "k": new2})
     check("{a: x, b: y, c: z}.update([('k', n)], b=m)", "update", True, [[("k", new)]], lambda e: [e[0], new2, e[2], new],
